@@ -43,3 +43,58 @@ Theorem C10_frame_pixels : forall e (inflate : list Z -> option (list Z)) o p f 
   Forall2 (fun a b => frame_same (optimize_alpha o) (frame_picture inflate (hdr (raw p)) a) (frame_picture inflate (hdr (raw p)) b)) (frames p) fs'.
 Proof. exact recompress_frames_top_pixels. Qed.
 Print Assumptions C10_frame_pixels.
+
+(* ================================================================ FILE TO FILE, against the APNG specification (Spec/Apng.v) *)
+From OxiVerif Require Import Spec.Decode Spec.DecodeFile Spec.Apng Model.Evaluate Proofs.OutputProofs Proofs.InputParse Proofs.ChunkFlow Proofs.ApngFile.
+
+(* the animation the specification reads from the input file = the fcTL chunks from_slice keeps among the ancillary chunks (the
+   default image as first frame), then the parsed frames; those fcTL chunks carry the sequence numbers 0, 1, ... *)
+Theorem C10_parsed_animation : forall e o bytes p cs fr, keeps_animation o -> bytes_ok bytes ->
+  from_slice e bytes o = Ok p -> spec_parse_png bytes = Some cs ->
+  Forall (fun c => named spec_IDAT c = true -> snd c <> []) cs ->
+  spec_apng_frames cs = Some fr ->
+  fr = map default_of (List.filter is_fctl (aux_chunks p)) ++ map sframe_of (frames p) /\
+  seqs_ok (List.filter is_fctl (aux_chunks p)) 0.
+Proof. exact from_slice_animation. Qed.
+Print Assumptions C10_parsed_animation.
+
+(* the animation the specification reads from the chunk sequence WRITTEN for a PngData whose ancillary list is pre ++ marker :: post:
+   the sequence numbers written are accepted (consecutive from 0), every frame has exactly the fields of the model frame and its
+   data, in order *)
+Theorem C10_written_animation : forall p pre m post,
+  aux_chunks p = pre ++ m :: post ->
+  Forall (fun c => cname_eqb (c_name c) name_fdAT = false /\ cname_eqb (c_name c) name_IDAT = false) pre ->
+  cname_eqb (c_name m) name_IDAT = true -> Forall no_frame_chunk post ->
+  seqs_ok (List.filter is_fctl pre) 0 -> Forall frame_in_range (frames p) ->
+  lenZ (List.filter is_fctl pre) + 2 * lenZ (frames p) < 2 ^ 32 ->
+  spec_apng_frames (output_chunks p) = Some (map default_of (List.filter is_fctl pre) ++ map sframe_of (frames p)).
+Proof. exact written_animation. Qed.
+Print Assumptions C10_written_animation.
+
+(* FILE TO FILE: for every input the specification reads as an animation (animation chunks kept by the policy, file below 4 GiB,
+   no empty IDAT chunk), the result is the input or the serialisation of a chunk sequence whose animation, read by the specification,
+   has the same number of frames in the same order with identical size, offset, delay, dispose and blend fields and the same
+   default-image flag, frame data unchanged or strictly smaller (their pixels: C10_frame_pixels) *)
+Theorem C10_file_to_file : forall e o bytes out cs fr,
+  keeps_animation o -> bytes_ok bytes -> lenZ bytes < 2 ^ 32 ->
+  spec_parse_png bytes = Some cs ->
+  Forall (fun c => named spec_IDAT c = true -> snd c <> []) cs ->
+  spec_apng_frames cs = Some fr ->
+  optimize_from_memory e o bytes = Ok out ->
+  out = bytes \/
+  exists p', out = output p' /\ output p' = PNG_SIG ++ serialize (output_chunks p') /\
+    exists fr', spec_apng_frames (output_chunks p') = Some fr' /\ Forall2 frame_rel fr fr'.
+Proof. exact apng_file_to_file. Qed.
+Print Assumptions C10_file_to_file.
+
+(* non-vacuity: a two-frame animation (default image is frame 0) read by the specification *)
+Example C10_spec_example :
+  spec_apng_frames [(spec_IHDR, []); (spec_acTL, [0;0;0;2; 0;0;0;0]);
+                    (spec_fcTL, [0;0;0;0; 0;0;0;4; 0;0;0;3; 0;0;0;0; 0;0;0;0; 0;1; 0;10; 0; 0]); (spec_IDAT, [1; 2; 3]);
+                    (spec_fcTL, [0;0;0;1; 0;0;0;2; 0;0;0;1; 0;0;0;1; 0;0;0;2; 0;1; 0;10; 1; 0]); (spec_fdAT, [0;0;0;2; 9; 8]);
+                    (spec_fdAT, [0;0;0;3; 7]); (spec_IEND, [])]
+  = Some [{| sf_w := 4; sf_h := 3; sf_x := 0; sf_y := 0; sf_delay_num := 1; sf_delay_den := 10; sf_dispose := 0; sf_blend := 0;
+             sf_default := true; sf_data := [] |};
+          {| sf_w := 2; sf_h := 1; sf_x := 1; sf_y := 2; sf_delay_num := 1; sf_delay_den := 10; sf_dispose := 1; sf_blend := 0;
+             sf_default := false; sf_data := [9; 8; 7] |}].
+Proof. vm_compute. reflexivity. Qed.
